@@ -316,3 +316,37 @@ def epnp_system(pw, px, fx, fy, cx, cy):
         M[1::2, 3 * j + 1] = alpha[:, j] * fy
         M[1::2, 3 * j + 2] = alpha[:, j] * (cy - px[:, 1])
     return np.linalg.svd(M, compute_uv=False) if n >= 6 else np.linalg.svd(M.T @ M, compute_uv=False) ** 0.5
+
+
+# ----------------------------------------------------------------------------- batched alignment
+def align_batch(src, tgt, with_scale):
+    """Kabsch / Umeyama for a stack (B, n, 3) of corresponding sets (float64, numpy stacked SVD).
+    Returns the (B,4,4) longdouble reference optimum and the per-item spectrum / norms."""
+    src = np.asarray(src, dtype=np.float64)
+    tgt = np.asarray(tgt, dtype=np.float64)
+    B, n = src.shape[:2]
+    cs, ct = src.mean(1), tgt.mean(1)
+    S, Q = src - cs[:, None], tgt - ct[:, None]
+    H = np.einsum("bni,bnj->bij", Q, S)
+    U, d, Vt = np.linalg.svd(H)
+    sgn = np.where(np.linalg.det(U) * np.linalg.det(Vt) >= 0, 1.0, -1.0)
+    Dg = np.ones((B, 3))
+    Dg[:, 2] = sgn
+    R = (U * Dg[:, None, :]) @ Vt
+    vs = (S * S).sum((1, 2))
+    s = (d * Dg).sum(1) / vs if with_scale else np.ones(B)
+    t = ct - s[:, None] * np.einsum("bij,bj->bi", R, cs)
+    M = np.zeros((B, 4, 4), dtype=LD)
+    M[:, :3, :3] = L.ld(s)[:, None, None] * L.ld(R)
+    M[:, :3, 3] = L.ld(t)
+    M[:, 3, 3] = 1
+    info = {"d": d, "sgn": sgn, "s": s, "nS": np.sqrt(vs), "nQ": np.sqrt((Q * Q).sum((1, 2))),
+            "cs": np.linalg.norm(cs, axis=-1), "ct": np.linalg.norm(ct, axis=-1)}
+    return M, info
+
+
+def sse_batch(M, src, tgt):
+    """Sum of squared residuals per item for stacks M (B,4,4), src/tgt (B,n,3); longdouble."""
+    p, q = L.ld(src), L.ld(tgt)
+    r = np.einsum("bij,bnj->bni", L.ld(M)[:, :3, :3], p) + L.ld(M)[:, None, :3, 3] - q
+    return np.asarray((r * r).sum((1, 2)), dtype=np.float64)
